@@ -79,6 +79,21 @@ Proof.
 Qed.
 Print Assumptions C16_replace.
 
+(* The pool's own holders: its count is the number of Open() calls minus the number of Close() calls of
+   the history, and the pool closes its connection only inside a Close() call that leaves no more Opens
+   than Closes: a connection is never closed while a holder that opened and has not closed is alive. *)
+Theorem C16_pool_holders : forall pre l n,
+  let s := fst (run init pre) in
+  refc s = balance pre /\
+  (In (CloseUnder n) (snd (step s l)) -> l = ClosePool /\ (balance (pre ++ [l]) <= 0)%Z /\ next s = Some n).
+Proof.
+  intros pre l n s. assert (R : refc s = balance pre) by (unfold s; rewrite run_refc; cbn; lia).
+  split; [exact R|]. intros H. apply step_closeunder in H as (-> & Hle & Hn).
+  split; [reflexivity|]. split; [|exact Hn].
+  unfold balance in *. rewrite !filter_app, !app_length. cbn. lia.
+Qed.
+Print Assumptions C16_pool_holders.
+
 (* ---- RefCountedSink ----------------------------------------------------------------------------- *)
 
 (* After every history of Open/Close/requests by any holders and of state changes of the underlying sink
